@@ -35,7 +35,7 @@ type ExtCfg struct {
 
 type Cfg struct {
 	Ver        []int    `json:"ver"`
-	Rmode      string   `json:"rmode"`
+	Its        bool     `json:"its"`
 	Random     []int    `json:"random"`
 	Sid        []int    `json:"sid"`
 	Suites     [][]int  `json:"suites"`
@@ -77,7 +77,7 @@ func strs(a [][]int) []string {
 func concretise(c *Cfg, rnd io.Reader) (*tls.Config, error) {
 	fp := &tls.ClientFingerprintConfiguration{
 		HandshakeVersion:   uint16(wire.BEUint(bs(c.Ver))),
-		InsertTimestamp:    c.Rmode == "timestamp",
+		InsertTimestamp:    c.Its,
 		SessionID:          bs(c.Sid),
 		CipherSuites:       u16s(c.Suites),
 		CompressionMethods: bs(c.Comp),
@@ -137,8 +137,7 @@ func abstractBack(conf *tls.Config, c *Cfg) error {
 	fp := conf.ClientFingerprintConfiguration
 	if int(fp.HandshakeVersion) != int(wire.BEUint(bs(c.Ver))) || !bytes.Equal(fp.SessionID, bs(c.Sid)) ||
 		len(fp.CipherSuites) != len(c.Suites) || !bytes.Equal(fp.CompressionMethods, bs(c.Comp)) ||
-		len(fp.Extensions) != len(c.Exts) || fp.InsertTimestamp != (c.Rmode == "timestamp") ||
-		(c.Rmode == "fixed") != (len(fp.ClientRandom) == 32) {
+		len(fp.Extensions) != len(c.Exts) || fp.InsertTimestamp != c.Its || len(fp.ClientRandom) != len(c.Random) {
 		return fmt.Errorf("concretised configuration does not abstract back to the case")
 	}
 	return nil
@@ -313,7 +312,7 @@ func check(c *Case, seed byte) ([]finding, *observation, error) {
 			}
 			sort.Strings(names)
 			for _, f := range names {
-				if f == "random" && c.Cfg.Rmode != "fixed" {
+				if f == "random" && len(c.Cfg.Random) != 32 {
 					continue
 				}
 				got, okf := m.Get(f)
